@@ -156,6 +156,7 @@ class World:
         self.setups = 0
         self.jobs_run = 0
         self.last_setup = None        # observation taken right after the most recent setup()
+        self.save_blobs = True        # configuration of the running process (Config.save_blobs)
         self.boot()
 
     # -- process life cycle --------------------------------------------------------------------
@@ -164,7 +165,7 @@ class World:
         from lbry.blob.blob_manager import BlobManager
         from lbry.extras.daemon.storage import SQLiteStorage
         self.loop = loop_class()().activate()
-        conf = Config(data_dir=self.root, wallet_dir=self.root, download_dir=self.dl)
+        conf = Config(data_dir=self.root, wallet_dir=self.root, download_dir=self.dl, save_blobs=self.save_blobs)
         self.conf = conf
 
         async def open_db():
@@ -172,9 +173,13 @@ class World:
             await st.open()
             return st
         self.st = self.loop.run(open_db())
+        self.bm = BlobManager(self.loop, self.bd, self.st, conf)
+        self._setup('new-process')
+
+    def _setup(self, style, stale_unverified=0):
+        """Runs BlobManager.setup() and records what the statement speaks about."""
         rows_before = self.rows()
         files_before = self.files()
-        self.bm = BlobManager(self.loop, self.bd, self.st, conf)
         err = None
         try:
             self.loop.run(self.bm.setup())
@@ -185,8 +190,9 @@ class World:
             'rows_before': rows_before, 'files_before': files_before, 'error': err,
             'has_stream': bool(self.query("select 1 from stream limit 1")),
             'rows': self.rows(), 'files': self.files(), 'completed': sorted(self.bm.completed_blob_hashes),
+            'style': style, 'save_blobs': self.save_blobs, 'stale_unverified': stale_unverified,
         }
-        self.log.append(('setup', self.brief(self.last_setup)))
+        self.log.append(('setup', style, self.save_blobs, self.brief(self.last_setup)))
 
     def _close_blobs(self):
         if self.bm is not None:
@@ -260,7 +266,7 @@ class World:
             blobs.append((h, type(b).__name__, b.get_is_verified(), b.writing.is_set(), b.length,
                           len(b.writers), len(b.readers)))
         return (tuple(self.files()), tuple(self.rows()), self.aux_rows(), tuple(sorted(self.bm.completed_blob_hashes)),
-                tuple(blobs))
+                tuple(blobs), self.save_blobs)
 
     # -- running an operation under a schedule -----------------------------------------------------
     def run_task(self, coro_or_none, choices, crash):
@@ -322,6 +328,19 @@ class World:
             except OSError as e:
                 return None, f'refused-{type(e).__name__}'
             return None, 'written'
+        if kind == 'begin':
+            # a download that is under way: the blob object exists, a writer is open, only part of the data arrived
+            h = self.hashes()[op[1]]
+            data = content_of(h)
+            try:
+                blob = bm.get_blob(h, len(data))
+                if blob.get_is_verified() or not blob.is_writeable():
+                    return None, 'skipped-have-it'
+                w = blob.get_blob_writer('10.0.0.2', 3333)
+                w.write(data[:len(data) // 2])
+            except OSError as e:
+                return None, f'refused-{type(e).__name__}'
+            return None, 'begun'
         if kind == 'publish':
             return self._publish(), 'publish'
         if kind == 'delete':
@@ -368,12 +387,23 @@ class World:
 
     def step(self, step):
         """One history step: (op, choices, crash).  op ('restart',) = clean stop + start; ('kill',) = process
-        death at quiescence + start.  A crash inside an operation is followed by a start."""
+        death at quiescence + start.  A crash inside an operation is followed by a start (same configuration)."""
         op, choices, crash = step[0], list(step[1]), bool(step[2])
-        if op[0] == 'restart':
+        if op[0] in ('restart', 'restart-flip'):
+            # a new process on the same directory; restart-flip starts it with the other save_blobs setting
             self.clean_stop()
+            if op[0] == 'restart-flip':
+                self.save_blobs = not self.save_blobs
             self.boot()
-            return [], False, 'restart'
+            return [], False, op[0]
+        if op[0] == 'restart-same':
+            # stop() and setup() on the live manager object (same loop, same storage), as upstream's own
+            # test_sync_blob_file_manager_on_startup restarts
+            stale = sum(1 for b in self.bm.blobs.values() if not b.get_is_verified())
+            self.bm.stop()
+            self.loop.drain()
+            self._setup('same-object', stale)
+            return [], False, 'restart-same'
         if op[0] == 'kill':
             self.die()
             self.boot()
@@ -533,6 +563,16 @@ def step_context(history):
     return {'after': 'restart-only', 'how': 'ran'}
 
 
+def setup_context(obs, ctx):
+    """Restart style and configuration go into the signature only when they are not the default ones."""
+    out = dict(ctx)
+    if obs.get('style') == 'same-object':
+        out['restart'] = 'same-object'
+    if obs.get('save_blobs') is False:
+        out['save_blobs'] = False
+    return out
+
+
 # ------------------------------------------------------------------------------------------------
 # executing one history
 
@@ -601,10 +641,12 @@ def play(history, extend=True, judge_from=None):
             actual.append((st[0], st[1], crashed))
             did_setup = w.setups > n_setups
             if did_setup:
-                nothing_between = prev_was_setup and st[0][0] in ('restart', 'kill')
+                # a configuration flip is a change: the 'nothing changed' claim is only judged for same-configuration restarts
+                nothing_between = prev_was_setup and st[0][0] in ('restart', 'kill', 'restart-same')
                 if i >= judge_from:
                     ctx = step_context(actual)
-                    ex.findings += judge_setup(w.last_setup, prev_obs if nothing_between else None, ctx)
+                    ex.findings += judge_setup(w.last_setup, prev_obs if nothing_between else None,
+                                                setup_context(w.last_setup, ctx))
                     ex.facts += setup_facts(w.last_setup, before_files, st, crashed)
                 prev_obs = w.last_setup
                 prev_was_setup = True
@@ -619,11 +661,12 @@ def play(history, extend=True, judge_from=None):
         if ex.extended:
             ctx = step_context(actual)
             w.step((('restart',), (), False))
-            ex.findings += judge_setup(w.last_setup, prev_obs if prev_was_setup else None, ctx)
+            ex.findings += judge_setup(w.last_setup, prev_obs if prev_was_setup else None,
+                                        setup_context(w.last_setup, ctx))
             ex.facts += setup_facts(w.last_setup, None, None, False)
             first = w.last_setup
             w.step((('restart',), (), False))
-            ex.findings += judge_setup(w.last_setup, first, ctx)
+            ex.findings += judge_setup(w.last_setup, first, setup_context(w.last_setup, ctx))
         ex.facts += [sig['kind'] for sig, _ in ex.findings if sig['kind'].startswith('interp:')]
         ex.findings = [(sig, what) for sig, what in ex.findings if not sig['kind'].startswith('interp:')]
         ex.log = list(w.log)
@@ -662,6 +705,17 @@ def setup_facts(obs, before_files, st, crashed):
         facts.append('setup_with_wrongly_named_files_present')
     if any(s == 0 for n, s in obs['files'] if is_blob_name(n)):
         facts.append('setup_with_zero_length_blob_file')
+    unrecorded = any(before.get(h) != 'finished' for h in files)
+    if obs.get('save_blobs') is False:
+        facts.append('setup_under_save_blobs_false')
+        if unrecorded:
+            facts.append('setup_under_save_blobs_false_with_unrecorded_file_present')
+    if obs.get('style') == 'same-object':
+        facts.append('restart_on_the_same_manager_object')
+        if obs.get('stale_unverified'):
+            facts.append('same_object_restart_with_unfinished_download_in_flight')
+            if unrecorded:
+                facts.append('same_object_restart_with_unfinished_download_and_unrecorded_file')
     return facts
 
 
@@ -677,15 +731,24 @@ def hash_indexes(cfg):
 
 
 def base_ops(cfg):
-    hs = hash_indexes(cfg)
-    ops = [('complete', i) for i in (hs if cfg.get('complete_stream_blobs') else range(cfg['nplain']))]
+    hs = cfg.get('hashes') or hash_indexes(cfg)
+    ops = [('complete', i) for i in (hs if cfg.get('complete_stream_blobs') else
+                                    [h for h in hs if h < NPLAIN])]
+    ops += [('begin', i) for i in cfg.get('begin', ())]
     ops += [('publish',)]
     ops += [('delete', h, f) for h in hs for f in (1, 0)]
-    ops += [('delstream',)]
+    if cfg.get('delstream', True):
+        ops += [('delstream',)]
     ops += [('unlink', h) for h in hs]
     ops += [('drop', h, 'full') for h in hs]
     ops += [('drop', h, 'empty') for h in hs if h in cfg['drop_empty']]
-    ops += [('wrong',), ('restart',), ('kill',)]
+    if cfg.get('wrong', True):
+        ops += [('wrong',)]
+    ops += [('restart',), ('kill',)]
+    if cfg.get('same_object', True):
+        ops += [('restart-same',)]
+    if cfg.get('modes'):
+        ops += [('restart-flip',)]
     return ops
 
 
@@ -723,7 +786,7 @@ def successors(history, names, cfg):
     for op in base_ops(cfg):
         if not op_enabled(op, names):
             continue
-        if op[0] in ('restart', 'kill'):
+        if op[0] in ('restart', 'kill', 'restart-same', 'restart-flip'):
             yield (op, (), op[0] == 'kill'), play(history + [(op, (), False)], extend=_need_extension)
             continue
         points = set()
@@ -784,7 +847,8 @@ def expand(item, res):
             res.tally('op_refused_' + ex.last_outcome)
         elif ex.last_outcome and ex.last_outcome not in ('written', 'publish', 'delete', 'delstream', 'unlinked',
                                                         'dropped', 'wrong-names-added', 'restart', 'kill',
-                                                        'skipped-have-it'):
+                                                        'skipped-have-it', 'begun', 'restart-same',
+                                                        'restart-flip'):
             res.tally(f'op_{step[0][0]}_raised_{ex.last_outcome}')
         full = history + [step]
         if first is None:
@@ -882,7 +946,7 @@ def explore(ctx, cfg, seen, t0, budget):
                 per_state = level_stats[-1][2] / max(1, level_stats[-1][0])
                 if (time.time() - t0) + per_state * len(items) * 1.1 > budget:
                     ctx.res.count('capped')
-                    ctx.res.tally(f"nplain{cfg['nplain']}_level_{depth}_not_started_wall_budget")
+                    ctx.res.tally(f"{cfg['name']}_level_{depth}_not_started_wall_budget")
                     break
             t1 = time.time()
             ctx.pmap(expand, items)
@@ -903,7 +967,7 @@ def explore(ctx, cfg, seen, t0, budget):
             if depth == 1 or depth == cfg['depth']:
                 # written-out traces: the three shortest and the three longest histories that reached a new state
                 for h, _ in (nxt[:3] if depth == 1 else nxt[-3:]):
-                    ctx.res.sample({'plain_blobs': cfg['nplain'], 'history': fmt_history(h) + ' + restart, restart',
+                    ctx.res.sample({'configuration': cfg['name'], 'history': fmt_history(h) + ' + restart, restart',
                                     'verdict': 'all claims hold after every setup()'}, force=True)
             frontier = nxt
             if not frontier:
@@ -914,19 +978,43 @@ def explore(ctx, cfg, seen, t0, budget):
 
 
 def phases(tier):
+    """One BFS per alphabet configuration.
+    main   : default configuration, one plain blob + the stream, new-process and same-object restarts
+    pairs / triples : two / three plain blobs, downloads of the stream's blobs, wrongly named files
+    config : save_blobs in {True, False} (restart-flip starts the next process with the other setting), downloads
+             left unfinished (`begin`) before a stop, same-object restarts; reduced identities (one plain blob, the
+             descriptor and one content blob)"""
+    red = [0, NPLAIN, NPLAIN + 1]
     if tier == 'quick':
-        return [{'nplain': 1, 'depth': 4, 'drop_empty': [0], 'por': True, 'complete_stream_blobs': False},
-                {'nplain': 2, 'depth': 3, 'drop_empty': [0], 'por': True, 'complete_stream_blobs': True}]
-    return [{'nplain': 3, 'depth': 4, 'drop_empty': [0, NPLAIN + 1], 'por': True, 'complete_stream_blobs': True},
-            {'nplain': 1, 'depth': 6, 'drop_empty': [0], 'por': True, 'complete_stream_blobs': False}]
+        return [
+            {'name': 'main', 'nplain': 1, 'depth': 4, 'drop_empty': [0], 'por': True, 'complete_stream_blobs': False,
+             'wrong': False, 'same_object': True},
+            {'name': 'pairs', 'nplain': 2, 'depth': 2, 'drop_empty': [0], 'por': True, 'complete_stream_blobs': True,
+             'wrong': True, 'same_object': False},
+            {'name': 'config', 'nplain': 1, 'depth': 3, 'drop_empty': [], 'por': True, 'complete_stream_blobs': True,
+             'wrong': False, 'same_object': True, 'modes': True, 'begin': [0, NPLAIN + 1], 'hashes': red,
+             'delstream': False},
+        ]
+    return [
+        {'name': 'triples', 'nplain': 3, 'depth': 3, 'drop_empty': [0, NPLAIN + 1], 'por': True,
+         'complete_stream_blobs': True, 'wrong': True, 'same_object': False},
+        {'name': 'pairs', 'nplain': 2, 'depth': 4, 'drop_empty': [0, NPLAIN + 1], 'por': True,
+         'complete_stream_blobs': True, 'wrong': True, 'same_object': False},
+        {'name': 'config', 'nplain': 1, 'depth': 4, 'drop_empty': [], 'por': True, 'complete_stream_blobs': True,
+         'wrong': False, 'same_object': True, 'modes': True, 'begin': [0, NPLAIN + 1], 'hashes': red,
+         'delstream': False},
+        {'name': 'main', 'nplain': 1, 'depth': 6, 'drop_empty': [0], 'por': True, 'complete_stream_blobs': False,
+         'wrong': False, 'same_object': True},
+    ]
 
 
 def run(ctx):
     import time
     configure(ctx.seed)
     plan = phases(ctx.tier)
-    if os.environ.get('C18_PHASES'):          # development aid: "nplain:depth,nplain:depth"
-        plan = [dict(plan[0], nplain=int(a), depth=int(b)) for a, b in
+    if os.environ.get('C18_PHASES'):          # development aid: "name:depth,name:depth"
+        byname = {c['name']: c for c in plan}
+        plan = [dict(byname[a], depth=int(b)) for a, b in
                 (x.split(':') for x in os.environ['C18_PHASES'].split(','))]
     stream_info()
     t0 = time.time()
@@ -940,11 +1028,11 @@ def run(ctx):
     for cfg in plan:
         seen = {digest16(ex0.canon)}
         depth, stats, exhausted = explore(ctx, cfg, seen, t0, budget)
-        done.append({'plain_blobs': cfg['nplain'], 'depth_bound': cfg['depth'], 'depth_completed': depth,
+        done.append({'configuration': cfg['name'], 'plain_blobs': cfg['nplain'], 'depth_bound': cfg['depth'], 'depth_completed': depth,
                      'state_space_exhausted_before_bound': exhausted,
                      'levels': [{'depth': i + 1, 'expanded': a, 'new_states': b, 'wall_s': round(c, 1)}
                                 for i, (a, b, c) in enumerate(stats)]})
-        ctx.res.setmax(f"depth_completed_with_{cfg['nplain']}_plain_blobs", depth)
+        ctx.res.setmax(f"depth_completed_{cfg['name']}", depth)
         if depth < cfg['depth'] and not exhausted:
             all_complete = False
     ctx.pmap(side_sweep, [0])
@@ -955,15 +1043,17 @@ def run(ctx):
               'store_stream, save_published_file), delete_blobs([h], delete_from_db in {T,F}) for every blob '
               'identity, the StreamManager.delete call sequence, unlink file h behind the back, drop a correctly '
               'named file h (full / zero length) behind the back, add wrongly named files, clean restart, kill at '
-              'quiescence} x every order of its executor jobs x a process death at every job boundary (followed '
-              'by a start). Every transition is executed on fresh real objects; the statement is judged on every '
+              'quiescence, stop()+setup() on the same manager object, restart with the other save_blobs setting '
+              '(config configuration only), a download left unfinished (config configuration only)} x every order '
+              'of its executor jobs x a process death at every job boundary (followed by a start). Every transition is executed on fresh real objects; the statement is judged on every '
               'setup() of the last step and on the extension restart, restart (skipped when the same live state '
               'was judged before). States are merged on the live canonical state (directory with sizes, blob/'
               'stream/file rows, completed set, flags of the manager\'s blob objects). distinct_nontrivial = '
               'distinct canonical states reached by a step other than a plain restart. One BFS per alphabet '
               'configuration listed in bounds.'),
         exhaustive=all_complete,
-        bounds={'configurations': [{k: c[k] for k in ('nplain', 'depth', 'drop_empty', 'complete_stream_blobs')}
+        bounds={'configurations': [{k: c.get(k) for k in ('name', 'nplain', 'depth', 'drop_empty', 'complete_stream_blobs',
+                                                          'wrong', 'same_object', 'modes', 'begin', 'hashes')}
                                    for c in plan],
                 'stream_blobs': 3, 'scaled_MAX_BLOB_SIZE_in_descriptor': SCALED_MAX_BLOB_SIZE,
                 'crash_points': 'every executor-job boundary of every job order (partial-order reduced)'},
@@ -988,7 +1078,10 @@ def run(ctx):
                             'finished_row_downgraded_to_pending', 'unrecorded_file_recorded_by_setup',
                             'pending_row_upgraded_to_finished_by_setup',
                             'boundary_with_two_runnable_jobs', 'setup_with_wrongly_named_files_present',
-                            'crash_inside_publish_between_file_write_and_db_write'],
+                            'crash_inside_publish_between_file_write_and_db_write',
+                            'restart_on_the_same_manager_object',
+                            'same_object_restart_with_unfinished_download_and_unrecorded_file',
+                            'setup_under_save_blobs_false_with_unrecorded_file_present'],
     )
 
 
